@@ -144,3 +144,73 @@ def instance_from_bytes(ctx, rule: str, modules: Iterable[str]) -> int:
             if hit:
                 chk.bad(rule, fn.qual, f"`{norm(c)[:80]}` calls from_bytes on the value `{r.id}` itself", "int.from_bytes(...)", A.loc(fn.module.relpath, c))
     return n
+
+
+_DB_GETTERS = ("get_bool", "get_int", "get_str", "get_list", "get_dict", "get_value", "get_file_path", "get_float")
+
+
+def db_key_lookups(ctx, rule: str, files) -> int:
+    """db-key-exists: a database lookup `db.get_<type>(DatabaseManager.<FEATURE>, "<key>", ...)` with a literal feature and key names a
+    key that exists under that feature for at least one device (or in the defaults).  A lookup of a key no database carries is dead:
+    it answers with its default for every family - the value was moved to, or is looked for in, the wrong feature.  (188 literal
+    lookups in the package, none dead, when the rule was written.)  Embedded positive example checked on every run."""
+    from ..core.devdb import DevDB
+    from ..core.report import norm
+    if getattr(ctx.repo, "_dbk_tables", None) is None:
+        db = DevDB(ctx.repo)
+        keys: dict = {}
+        for dev in db.device_names():
+            for _rev, feats in db.revisions(dev).items():
+                for f, d in feats.items():
+                    if isinstance(d, dict):
+                        keys.setdefault(f, set()).update(d.keys())
+        for f, d in (db.defaults.get("features") or {}).items():
+            if isinstance(d, dict):
+                keys.setdefault(f, set()).update(d.keys())
+        dbm = ctx.prog.modules.get("spsdk/utils/database.py") or next((x for x in ctx.prog.modules.values() if x.relpath == "spsdk/utils/database.py"), None)
+        if dbm is None:
+            dbm = ctx.mod("spsdk/utils/database.py") if hasattr(ctx, "mod") else None
+        tree = dbm.tree if dbm is not None else ast.parse(ctx.repo.read("spsdk/utils/database.py"))
+        fe: dict = {}
+        feat: dict = {}
+        for n in ast.walk(tree):
+            if isinstance(n, ast.ClassDef) and n.name == "FeaturesEnum":
+                for s in n.body:
+                    if isinstance(s, ast.Assign) and isinstance(s.value, ast.Tuple) and len(s.value.elts) >= 2 and isinstance(s.value.elts[1], ast.Constant):
+                        fe[s.targets[0].id] = s.value.elts[1].value
+        for n in ast.walk(tree):
+            if isinstance(n, ast.ClassDef) and n.name == "DatabaseManager":
+                for s in n.body:
+                    if isinstance(s, ast.Assign) and isinstance(s.targets[0], ast.Name):
+                        t = norm(s.value)
+                        if t.startswith("FeaturesEnum.") and t.endswith(".label") and t.split(".")[1] in fe:
+                            feat[s.targets[0].id] = fe[t.split(".")[1]]
+                        elif isinstance(s.value, ast.Constant) and isinstance(s.value.value, str):
+                            feat[s.targets[0].id] = s.value.value
+        if len(feat) < 20 or len(keys) < 20:
+            raise AnalysisError(f"db-key-exists: feature table ({len(feat)}) / database key table ({len(keys)}) not recovered")
+        ctx.repo._dbk_tables = (keys, feat)
+    keys, feat = ctx.repo._dbk_tables
+
+    def lookups(tree):
+        for c in ast.walk(tree):
+            if isinstance(c, ast.Call) and isinstance(c.func, ast.Attribute) and c.func.attr in _DB_GETTERS and len(c.args) >= 2:
+                a0, a1 = c.args[0], c.args[1]
+                f = feat.get(a0.attr) if isinstance(a0, ast.Attribute) and norm(a0.value) == "DatabaseManager" else None
+                k = a1.value if isinstance(a1, ast.Constant) and isinstance(a1.value, str) else (a1.elts[0].value if isinstance(a1, ast.List) and a1.elts and isinstance(a1.elts[0], ast.Constant) and isinstance(a1.elts[0].value, str) else None)
+                if f is not None and k is not None:
+                    yield c, f, k
+    pos = ast.parse("x = get_db(f).get_bool(DatabaseManager.DAT, 'no_such_key_anywhere', False)")
+    if [1 for _c, f, k in lookups(pos) if k not in keys.get(f, set())] != [1]:
+        raise AnalysisError("db-key-exists: embedded positive example no longer matches")
+    n = 0
+    for rp in files:
+        m = ctx.prog.modules.get(rp) or next((x for x in ctx.prog.modules.values() if x.relpath == rp), None)
+        if m is None:
+            continue
+        for c, f, k in lookups(m.tree):
+            n += 1
+            if k not in keys.get(f, set()):
+                ctx.chk.bad(rule, f"{rp} `{norm(c)[:110]}`", f"no device database (nor the defaults) has a key '{k}' under the feature '{f}': the lookup answers with its default for every family",
+                            "a literal database lookup names a key some database carries", f"{rp}:{c.lineno}")
+    return n
